@@ -6,7 +6,31 @@ ID = "C14"
 SUITE = "define"
 LEAN_TARGETS = ["TypedpyModel.Props.C14", "TypedpyModel.Audit.C14"]
 AUDIT = "C14"
-THEOREMS = []
+THEOREMS = [
+    "Typedpy.C14.ancestor_fields_subset",
+    "Typedpy.C14.ancestor_field_same",
+    "Typedpy.C14.defined_class_ok",
+    "Typedpy.C14.base_in_mro",
+    "Typedpy.C14.sub_fields_superset",
+    "Typedpy.C14.not_owned_of_not_declared",
+    "Typedpy.C14.inherited_field_same",
+    "Typedpy.C14.sub_required_superset_partial",
+    "Typedpy.C14.same_field_same_behaviour",
+    "Typedpy.C14.fault_rejected_partial",
+    "Typedpy.C14.fault_yields_no_class",
+    "Typedpy.C14.immutableField_subclass_rejected",
+    "Typedpy.C14.abstract_not_instantiable",
+    "Typedpy.C14.abstract_subclass_not_instantiable",
+    "Typedpy.C14.falsy_default_not_validated",
+    "Typedpy.C14.mutable_class_form_default_accepted",
+    "Typedpy.C14.fault_rejected_statement_false",
+    "Typedpy.C14.abstractStructure_itself_instantiates",
+    "Typedpy.C14.abstract_statement_false",
+    "Typedpy.C14.constant_required_dropped",
+    "Typedpy.C14.second_base_required_dropped",
+    "Typedpy.C14.inheritance_example",
+    "Typedpy.reachable_ok",
+]
 RULE = ("histories of class statements: DAG hierarchies of 1..4 classes (single / two struct bases, plain mixins "
         "before or after, ImmutableStructure / FinalStructure / AbstractStructure roots), fields from the type-directed "
         "declaration generator with `default=` / annotation `=` / class-form defaults (literal or generating function), "
